@@ -44,6 +44,13 @@ def parse_compile_obs(o):
 
 
 def run(ctx, log):
+    # enumerated families decided by Sem.v: how function / loop bodies end; names that live in several name spaces
+    extra_sem_families = []
+    extra_sem_families += progcheck.function_endings_family(ctx.quick)
+    extra_sem_families += progcheck.nested_names_family(ctx.quick)
+    progcheck.pipeline(ctx, extra_sem_families, log, budget=20000, label="endings-and-names", shard_size=120)
+    for s_ in extra_sem_families:
+        ctx.seen(("family", s_))
     # a failing line that completed nothing leaves a retained session as it was (every kind of failure, at every depth)
     progcheck.run_failing_lines(ctx, log)
     # stray `stop` / `volgende` under every nesting of loops, functions, blocks and branches
